@@ -156,6 +156,14 @@ def run(ctx):
         for s in (first, items[0][1] + items[1][1], sum(w for _, w in items), first + 1, 1, 2, items[0][1], sum(w for _, w in items[:3])):       # (an unreachable target above the total would cost the real exhaustive search minutes)
             ev.append(ev_sum('exactsum', items, s))
         traces.append(dict(ev=ev)); ctx.mark(('many items', n))
+    # ... with weights that are distinct powers of two: every reachable target has exactly ONE sub-collection (ascending and descending lists:
+    # the answer lies in the first half, in the second half, or in both)
+    for n in (25, 26, 29):
+        for desc in (False, True):
+            items = [[i + 1, 1 << (n - 1 - i if desc else i)] for i in range(n)]; ev = []
+            for s in ((1 << 3) + (1 << 5), (1 << 12) + 1, (1 << 0), (1 << 2) + (1 << 13), (1 << 11) + (1 << 6) + (1 << 1), 3):
+                ev.append(ev_sum('exactsum', items, s))
+            traces.append(dict(ev=ev)); ctx.mark(('many items, unique answers', n, desc))
     # long lists with repeats: a long non-increasing tail that contains the pivot's value (successor / wrap-around)
     for n in ((17, 18, 20, 24, 33) if big else (18, 20, 33)):
         ev = []
